@@ -99,6 +99,8 @@ def eval_case(case) -> Outcome:
         shapes.append("mixed-spellings")
     if case.get("zone_tree"):
         shapes.append("explicit-zone-tree")
+        if case["zone_tree"].get("type") in S.CONTAINER_TYPES:
+            shapes.append("community-or-region-root")
     out.labels.update(shapes)
     if not hot:
         out.rc.add("no-hot-streams")
@@ -139,8 +141,8 @@ def eval_case(case) -> Outcome:
     # --- one DI record per zone
     di = [t.name for t in result.targets if t.name.endswith("/" + S.DI)]
     if case.get("zone_tree"):
-        def count(node):
-            return 1 + sum(count(c) for c in (node.get("children") or []))
+        def count(node):  # communities and regions only group sites; they are not targeted themselves
+            return (0 if node.get("type") in S.CONTAINER_TYPES else 1) + sum(count(c) for c in (node.get("children") or []))
         want = count(case["zone_tree"])
     else:
         paths = {()}
@@ -274,7 +276,8 @@ def wide_problem(draw, tier, hp=False):
 
 
 def strategy(tier):
-    return wide_problem(tier)
+    # (one_of() drops repeated strategy objects, so the weighting is done with an integer draw)
+    return st.integers(0, 15).flatmap(lambda k: G.community_problem() if k == 0 else wide_problem(tier))
 
 
 def strategy_hp(tier):
